@@ -203,5 +203,12 @@ func (w *wbuild) damageCache(m *Machine) string {
 		r, _ := filepath.Rel(m.Root, f)
 		rel += r + " "
 	}
+	if c.Choose(2, "damage-fresh-checkout") == 1 {
+		// fresh checkout over a partially collected cache: every output has to be restored
+		for _, l := range w.U.Labels() {
+			removeOutputs(m.WS, w.U.Specs[l])
+		}
+		rel += "+ outputs wiped"
+	}
 	return "removed " + rel
 }
